@@ -154,6 +154,9 @@ func init() {
 				}
 			}
 		}
+		for _, c := range []seqCfg{{"bse_writing_max10", 2, 0, 1, 10}, {"bse_accessing_max2", 3, 0, 1, 2}} {
+			js = append(js, mk("c03.sync."+c.name, rootPkg, "ZZ_C03_Sync", with(cfgParams(c.exp, c.ref, c.bound, c.max, 0, 0), "steps", 1), func(b *Bounds) { b.Unwind = 70 }))
+		}
 		j := mk("c03.canary", rootPkg, "ZZ_C03_ExpiredUnswept", with(cfgParams(2, 0, 0, 10, 1, 0), "op", 0, "canary", 1), func(b *Bounds) { b.Unwind = 8 })
 		j.Canary = "c03.canary"
 		js = append(js, j)
@@ -259,7 +262,7 @@ func init() {
 		if tier == "thorough" {
 			mid = -1
 		}
-		js = append(js, symJobs("c06", "ZZ_C06_Sym", []seqCfg{{"b_nomaint", 0, 0, 0, 0}, {"be_writing", 2, 0, 0, 0}}, mid, 1)...)
+		js = append(js, symJobs("c06", "ZZ_C06_Sym", []seqCfg{{"b_nomaint", 0, 0, 0, 0}, {"be_writing", 2, 0, 0, 0}, {"bw_w100_pending", 0, 0, 2, 100}}, mid, 1)...)
 		c := syncJobs("c06", "ZZ_C06_Sync", []seqCfg{{"canary", 0, 0, 1, 1}}, 1, "canary", 1)[0]
 		c.Canary = "c06.canary"
 		return append(js, c)
@@ -485,7 +488,11 @@ func init() {
 		if tier == "thorough" {
 			steps = 10
 		}
-		for caps := 0; caps < 4; caps++ {
+		ncaps := 6
+		if tier == "thorough" {
+			ncaps = 8
+		}
+		for caps := 0; caps < ncaps; caps++ {
 			js = append(js, mk(sprintf("c16.seq.caps%d", caps), queuePkg, "ZZ_C16_Seq", map[string]int{"caps": caps, "steps": steps, "canary": 0},
 				func(b *Bounds) { b.Unwind = 40; b.MaxPaths = 1000000; b.MaxWallS = 1500 }))
 		}
@@ -682,7 +689,19 @@ func init() {
 		}
 	}
 	registry["C04"] = gen("c04", "ZZ_C04_Sync", 4)
-	registry["C05"] = gen("c05", "ZZ_C05_Sync", 5)
+	c05 := gen("c05", "ZZ_C05_Sync", 5)
+	registry["C05"] = func(tier string) []*Job {
+		js := c05(tier)
+		mid := 3
+		if tier == "thorough" {
+			mid = -1
+		}
+		for _, c := range []seqCfg{{"bs_max10_pending", 0, 0, 1, 10}, {"bw_w100_pending", 0, 0, 2, 100}} {
+			p := with(cfgParams(c.exp, c.ref, c.bound, c.max, 1, 0), "symtime", 1, "steps", 3, "nkeys", 2, "prefixset", 2, "opset", 0, "firstop", 0, "lastkeys", 1, "midset", mid)
+			js = append(js, mk("c05.pending."+c.name, rootPkg, "ZZ_C05_Pending", p, func(b *Bounds) { b.Unwind = 12; b.MaxPaths = 800000; b.MaxWallS = 1800 }))
+		}
+		return js
+	}
 }
 
 func sprintf(f string, a ...interface{}) string { return fmt.Sprintf(f, a...) }
